@@ -115,8 +115,16 @@ fn lm_case(v: &mut Verdicts, c: &Value) {
         match g {
             Some((th, cv)) => {
                 let scale = coef.iter().fold(1.0f64, |m, t| m.max(t.abs()));
-                let okp = th.len() == p && th.iter().zip(&coef).all(|(a, b)| (a - b).abs() <= 1e-7 * scale);
-                v.check(okp, "LM reaches least squares", &format!("{} {}", class, sname), c, json!(fjs(&th)));
+                // "reaches the least-squares solution": the parameters to 1e-7, or - where the problem is too ill-conditioned for
+                // that - as far as LM's own acceptance test (a decrease of the computed RSS) can resolve: the excess
+                // RSS(theta) - RSS* = d^T X^T X d (exact identity for a linear model, evaluated without cancellation) is within
+                // 64 roundings of the minimal RSS (measured on the unchanged tree: <= 2)
+                let excess = { let d: Vec<f64> = th.iter().zip(&coef).map(|(a, b)| a - b).collect();
+                    x.iter().map(|t| { let mut pw = 1.0; let mut s = 0.0; for k in 0..d.len().min(p) { s += d[k] * pw; pw *= t; } s * s }).sum::<f64>() };
+                let units = excess / (f64::EPSILON * rss(&coef)).max(1e-300);
+                let okp = th.len() == p && (th.iter().zip(&coef).all(|(a, b)| (a - b).abs() <= 1e-7 * scale) || units <= 64.0);
+                v.check(okp, "LM reaches least squares", &format!("{} {}", class, sname), c, json!({"theta": fjs(&th), "excess_rss_in_roundings_of_rss_min": units}));
+                if std::env::var("VERIF_LM_UNITS").is_ok() { eprintln!("LMUNITS {} {} maxdev {:e} units {:e}", class, sname, th.iter().zip(&coef).map(|(a, b)| (a - b).abs()).fold(0.0f64, f64::max) / scale, units); }
                 let okd = rss(&th) <= rss(&start) * (1.0 + 1e-12);
                 v.check(okd, "LM descends", &format!("{} {}", class, sname), c, json!({"rss_start": rss(&start), "rss_end": rss(&th)}));
                 let cs = cov.iter().fold(0.0f64, |m, t| m.max(t.abs())).max(1e-300);
